@@ -390,8 +390,8 @@ func (a *Addr) field(i int) *Addr {
 func (e *Enc) assumeTypeInv(st *State, term string, t types.Type, guard string) {
 	switch t.Underlying().(type) {
 	case *types.Slice:
-		e.ctx.assert(implies(guard, fmt.Sprintf("(and (bvsle #x0000000000000000 (s.off %s)) (bvsle #x0000000000000000 (s.len %s)) (bvsle (s.len %s) (s.cap %s)) (bvslt (s.cap %s) #x0000100000000000) (bvslt (s.off %s) #x0000100000000000) (=> (= (s.arr %s) nil) (= (s.cap %s) #x0000000000000000)))",
-			term, term, term, term, term, term, term, term)))
+		e.ctx.assert(implies(guard, fmt.Sprintf("(and (bvsle #x0000000000000000 (s.off %s)) (bvsle #x0000000000000000 (s.len %s)) (bvsle (s.len %s) (s.cap %s)) (bvslt (s.cap %s) #x0000100000000000) (bvslt (s.off %s) #x0000100000000000) (=> (= (s.arr %s) nil) (and (= (s.cap %s) #x0000000000000000) (= (s.off %s) #x0000000000000000))))",
+			term, term, term, term, term, term, term, term, term)))
 		e.ctx.assert(implies(guard, fmt.Sprintf("(or (= (s.arr %s) nil) (select %s (s.arr %s)))", term, e.allocArr(st), term)))
 	case *types.Pointer, *types.Map:
 		e.ctx.assert(implies(guard, fmt.Sprintf("(or (= %s nil) (select %s %s))", term, e.allocArr(st), term)))
@@ -1387,12 +1387,7 @@ func (f *Frame) encodeSlice(x *ssa.Slice, st *State) {
 			hi = f.toBV64(f.val(x.High))
 		}
 		f.safetyObl("slice", f.srcText(x), and("(bvsle "+zero+" "+lo+")", "(bvsle "+lo+" "+hi+")", "(bvsle "+hi+" (slen "+base.T+"))"))
-		c.declFun("substr", []string{sortStr, sortBV64, sortBV64}, sortStr)
-		if !c.declared["ax:substr"] {
-			c.declared["ax:substr"] = true
-			c.assert("(forall ((s Str) (a (_ BitVec 64)) (b (_ BitVec 64))) (! (=> (and (bvsle #x0000000000000000 a) (bvsle a b) (bvsle b (slen s))) (= (slen (substr s a b)) (bvsub b a))) :pattern ((substr s a b))))")
-			c.assert("(forall ((s Str)) (! (= (substr s #x0000000000000000 (slen s)) s) :pattern ((substr s #x0000000000000000 (slen s)))))")
-		}
+		c.declSubstr()
 		f.defVal(x, fmt.Sprintf("(substr %s %s %s)", base.T, lo, hi))
 	case *types.Slice:
 		hi := "(s.len " + base.T + ")"
@@ -1651,4 +1646,13 @@ func callName(cc *ssa.CallCommon) string {
 		return b.Name()
 	}
 	return "call"
+}
+
+func (c *Ctx) declSubstr() {
+	c.declFun("substr", []string{sortStr, sortBV64, sortBV64}, sortStr)
+	if !c.declared["ax:substr"] {
+		c.declared["ax:substr"] = true
+		c.assert("(forall ((s Str) (a (_ BitVec 64)) (b (_ BitVec 64))) (! (=> (and (bvsle #x0000000000000000 a) (bvsle a b) (bvsle b (slen s))) (= (slen (substr s a b)) (bvsub b a))) :pattern ((substr s a b))))")
+		c.assert("(forall ((s Str)) (! (= (substr s #x0000000000000000 (slen s)) s) :pattern ((substr s #x0000000000000000 (slen s)))))")
+	}
 }
